@@ -326,10 +326,13 @@ def rand_typing(rng, desc, n_events):
 LETTERS = "abcdehilnorst"
 
 
-def rand_dict(rng, tier):
+def rand_dict(rng, tier, small=False):
     """A random dictionary of <= 4 lines over {a, b, c, space}: overlapping chords, chords extending other chords,
-    follow-up chords, lower/upper-case outputs, outputs sharing prefixes."""
+    follow-up chords, lower/upper-case outputs, outputs sharing prefixes.  small: three keys, no modifier, short
+    deadlines (an instance TLC explores exhaustively)."""
     alphabet = ["a", "b", "c", "spc"]
+    if small:
+        alphabet = sorted(rng.sample(alphabet, 3), key=alphabet.index)
     n = rng.randint(2, 4)
     lines, seen = [], set()
     stems = ["".join(rng.choice(LETTERS) for _ in range(rng.randint(1, 3))) for _ in range(2)]
@@ -361,6 +364,9 @@ def rand_dict(rng, tier):
         lines.append({"chain": chain, "out": word})
     # every antecedent of a follow-up must itself be a line (the parser requires it only implicitly: an antecedent
     # without its own line has an empty output)
+    if small:
+        return {"lines": lines, "D": rng.choice([2, 3]), "W": rng.choice([1, 2]), "ss": rng.choice(["none", "add-space-only"]),
+                "punct": None, "keys": alphabet, "mods": []}
     D = rng.choice([2, 3, 5, 20])
     W = rng.choice([1, 2, 3, 15])
     ss = rng.choice(["none", "none", "add-space-only", "full"])
@@ -404,12 +410,17 @@ def family(tier):
         ("sfu", _desc([(["ab"], "Hello"), (["b"], "B")], "ab", ["lsft", "rsft"]), dict(hold=3)),
         ("agr", _desc([(["ab"], "hi"), (["ab", "a"], "ho")], "ab", ["ralt"]), dict(hold=3)),
         ("ssq", _desc([(["ab"], "hi"), (["abc"], "hint")], ["a", "b", "c", "comm"], ss="full", D=2, W=1), dict(hold=3)),
-        ("ssf", _desc([(["ab"], "hi"), (["ab", "a"], "his ")], ["a", "b", "comm"], ["lsft"], ss="full"), dict(hold=3)),
+        ("ssf", _desc([(["ab"], "hi"), (["ab", "a"], "his ")], ["a", "b", "comm"], ss="full"), dict(hold=3)),
+        ("sss", _desc([(["ab"], "Hi"), (["b"], "ho")], ["a", "b"], ["lsft"], ss="add-space-only"), dict(hold=3)),
         ("ovl", _desc([(["ab"], "x"), (["bc"], "y"), ([" c"], "Zed"), ([" abc"], "all")], ["spc", "a", "b", "c"], D=2, W=1),
          dict(hold=3)),
         ("w3", _desc([(["ab"], "Abba"), (["abc"], "alphabet")], "abc", D=3, W=3), dict(hold=3)),
     ]
     return q + t
+
+
+def random_instances(rng, n):
+    return [("rnd%d" % i, rand_dict(rng, "thorough", small=True), dict(hold=3)) for i in range(n)]
 
 
 def complete(h, desc):
@@ -442,7 +453,7 @@ def run(tier, seed):
         return j
 
     # D + B: TLC explores Zippy || P_C20, every transition replayed on the real code
-    for name, desc, b in family(tier):
+    for name, desc, b in family(tier) + ([] if quick else random_instances(rng, 5)):
         r = check_instance(name, desc, wd, maxhold=b["hold"], workers=8, timeout=1500)
         res.add_instance(r)
         if len(res.samples) < 4:
@@ -455,14 +466,14 @@ def run(tier, seed):
         if ds:
             pick = ds[:120] + rng.sample(ds[120:], min(len(ds) - 120, 80)) if len(ds) > 120 else ds
             groups["drift"].append(job(desc, "d:" + name, [complete(d["h"], desc) for d in pick]))
-        groups["attempts"].append(job(desc, "a:" + name, chord_attempts(desc, rng, limit=250 if quick else 2500)))
+        groups["attempts"].append(job(desc, "a:" + name, chord_attempts(desc, rng, limit=250 if quick else 1500)))
         groups["random"].append(job(desc, "r:" + name, [rand_typing(rng, desc, rng.randint(4, 40)) for _ in range(20 if quick else 150)]))
     # C beyond the bounds of the exhaustive instances: random dictionaries (<= 4 lines over {a, b, c, space}), larger
     # deadlines, both shifts / altgr, the quantifier's attempts and random typing
-    for i in range(10 if quick else 120):
+    for i in range(10 if quick else 60):
         desc = rand_dict(rng, tier)
-        groups["attempts"].append(job(desc, "a:rd%d" % i, chord_attempts(desc, rng, limit=120 if quick else 600)))
-        groups["random"].append(job(desc, "r:rd%d" % i, [rand_typing(rng, desc, rng.randint(4, 60)) for _ in range(30 if quick else 150)]))
+        groups["attempts"].append(job(desc, "a:rd%d" % i, chord_attempts(desc, rng, limit=120 if quick else 400)))
+        groups["random"].append(job(desc, "r:rd%d" % i, [rand_typing(rng, desc, rng.randint(4, 60)) for _ in range(30 if quick else 100)]))
     nrej = 0
     classes = {}
     for label in ("witness", "drift", "attempts", "random"):
@@ -470,7 +481,10 @@ def run(tier, seed):
         if not jobs:
             continue
         jobs = shard_local_index(jobs)
-        errs, trace = record_and_validate(res, "P_C20", jobs, wd, "c20_" + label)
+        errs = []
+        for ci in range(0, len(jobs), 4000):      # one TLC trace-validation run per 4000 recorded histories
+            es, trace = record_and_validate(res, "P_C20", jobs[ci:ci + 4000], wd, "c20_%s_%d" % (label, ci // 4000))
+            errs += es
         nviol = 0
         for e in errs:
             nrej += 1
